@@ -221,7 +221,8 @@ exprassign(struct expr *e, struct type *t)
 			error(&tok.loc, "assignment to %s type must be from compatible type", tokstr[t->kind]);
 		break;
 	default:
-		assert(t->prop & PROPARITH);
+		if (!(t->prop & PROPARITH))
+			error(&tok.loc, "assignment to expression of void, function or array type");
 		if (!(et->prop & PROPARITH))
 			error(&tok.loc, "assignment to arithmetic type must be from arithmetic type");
 		break;
